@@ -7,7 +7,7 @@ import numpy as np
 from batchie.data import (Screen, ExperimentSpace, encode_treatment_arrays_to_0_indexed_ids as enc_t, encode_1d_array_to_0_indexed_ids as enc_1,
                           numpy_array_is_0_indexed_integers as is_dense)
 
-NAMES = ["", "a", "b", "ctl", "A", "é", "名", "a ", "0"]
+NAMES = ["", "a", "b", "ctl", "A", "é", "名", "a ", "0", " a", "a\t", "ctl ", " "]
 DOSES = [0.0, -0.0, -1.0, 5e-324, 1e-12, 1e-9, 2.2250738585072014e-308, 0.1, 1.0, 2.0, 1e6]
 
 
@@ -51,8 +51,9 @@ def one(seed):
     pool_d = rnd.sample(DOSES, rnd.randrange(1, 5))
     tn = np.array([[rnd.choice(pool_n) for _ in range(ar)] for _ in range(n)], dtype=str)
     td = np.array([[rnd.choice(pool_d) for _ in range(ar)] for _ in range(n)], dtype=float)
-    sn = np.array([rnd.choice(["s", "", "t", "名"]) for _ in range(n)], dtype=str)
-    pn = np.array([rnd.choice(["p1", "p2", ""]) for _ in range(n)], dtype=str)
+    # names that differ only by surrounding blanks / case / width are DIFFERENT names
+    sn = np.array([rnd.choice(["s", "", "t", "名", "s ", " s", "S", "s\t", "ｓ"]) for _ in range(n)], dtype=str)
+    pn = np.array([rnd.choice(["p1", "p2", "", " p1", "p1 ", "P1", " "]) for _ in range(n)], dtype=str)
     # --- encoders alone
     flat_n, flat_d = tn.flatten(), td.flatten()
     ids, mn, md, mi = enc_t(flat_n, flat_d, control_treatment_name=ctl)
